@@ -2408,6 +2408,97 @@ fn cram_case(ctx: &mut Ctx, sub: u64) {
 
 // ------------------------------------------------------------------ entry points
 
+/// (number of records, record counter) of every data container of a CRAM file
+fn cram_container_counters(bytes: &[u8]) -> Result<Vec<(i32, i64)>, String> {
+    use noodles_cram as cram;
+    let mut src: &[u8] = bytes.get(26..).ok_or("no file definition")?;
+    let mut out = vec![];
+    let mut first = true;
+    while !src.is_empty() {
+        let len = i32::from_le_bytes(src.get(..4).ok_or("cut")?.try_into().unwrap());
+        src = &src[4..];
+        let e = |e: std::io::Error| e.to_string();
+        let (r0, _r1, _r2) = (cram::verif::read_itf8(&mut src).map_err(e)?, cram::verif::read_itf8(&mut src).map_err(e)?, cram::verif::read_itf8(&mut src).map_err(e)?);
+        let nrec = cram::verif::read_itf8(&mut src).map_err(e)?;
+        let counter = cram::verif::read_ltf8(&mut src).map_err(e)?;
+        let _bases = cram::verif::read_ltf8(&mut src).map_err(e)?;
+        let _nblocks = cram::verif::read_itf8(&mut src).map_err(e)?;
+        let nl = cram::verif::read_itf8(&mut src).map_err(e)?;
+        for _ in 0..nl {
+            cram::verif::read_itf8(&mut src).map_err(e)?;
+        }
+        src = src.get(4..).ok_or("cut in crc")?;
+        src = src.get(len.max(0) as usize..).ok_or("cut in body")?;
+        if first {
+            first = false;
+            continue;
+        }
+        if len == 15 && r0 == -1 {
+            break; // EOF container
+        }
+        out.push((nrec, counter));
+    }
+    Ok(out)
+}
+
+/// More records than two containers hold (2 × 10240): the running record counter of the third
+/// container onwards, sync writer vs async writer.
+fn cram_big_case(ctx: &mut Ctx) {
+    use noodles_cram as cram;
+    let case = "cram-big 0".to_string();
+    let header = sam::Header::default();
+    let n = 20_490usize;
+    let recs: Vec<RecordBuf> = (0..n)
+        .map(|i| {
+            RecordBuf::builder()
+                .set_name(format!("r{i}"))
+                .set_flags(sam::alignment::record::Flags::UNMAPPED)
+                .set_sequence(b"A".to_vec().into())
+                .set_quality_scores(vec![30].into())
+                .build()
+        })
+        .collect();
+    ctx.eval(Some(fnv(case.as_bytes())));
+    let sync = guarded(|| -> std::io::Result<Vec<u8>> {
+        let mut w = cram::io::writer::Builder::default().build_from_writer(Vec::new());
+        w.write_header(&header)?;
+        for r in &recs {
+            w.write_alignment_record(&header, r)?;
+        }
+        w.try_finish(&header)?;
+        Ok(w.get_ref().clone())
+    });
+    let (h2, recs2) = (header.clone(), recs.clone());
+    let asy = guarded(move || {
+        block_on(async move {
+            let mut w = cram::r#async::io::writer::Builder::default().build_from_writer(Vec::new());
+            w.write_header(&h2).await?;
+            for r in &recs2 {
+                w.write_alignment_record(&h2, r).await?;
+            }
+            w.shutdown(&h2).await?;
+            Ok::<Vec<u8>, std::io::Error>(w.get_ref().clone())
+        })
+    });
+    match (sync, asy) {
+        (Ok(Ok(s)), Ok(Ok(a))) => {
+            let (cs, ca) = (cram_container_counters(&s), cram_container_counters(&a));
+            match (&cs, &ca) {
+                (Ok(x), Ok(y)) if x == y && x.len() >= 3 => ctx.bump("cram_big_counters_equal"),
+                _ => ctx.fail("cram-async-writer", format!("{n} records: (records, record counter) per container: sync writer {:?}, async writer {:?}", cs, ca), case),
+            }
+        }
+        (s, a) => {
+            let d = |r: &Result<std::io::Result<Vec<u8>>, String>| match r { Ok(Ok(v)) => format!("{} bytes", v.len()), Ok(Err(e)) => format!("error {e}"), Err(p) => format!("panic {}", clip(p)) };
+            if matches!(s, Ok(Ok(_))) {
+                ctx.fail("cram-async-writer", format!("{n} records: sync writer {}, async writer {}", d(&s), d(&a)), case);
+            } else {
+                ctx.bump("cram_big_sync_writer_failed");
+            }
+        }
+    }
+}
+
 pub fn text_case(ctx: &mut Ctx, suite: &str, sub: u64) {
     let mut rng = Rng::new(sub);
     let case = format!("{suite} {sub}");
@@ -2452,6 +2543,7 @@ pub fn corpus(ctx: &mut Ctx) {
     bcf_case(ctx, 16005001);
     bcf_case(ctx, 16005007); // loffset written by the async CSI writer (visible once n_ref is written)
     cram_case(ctx, 16006002);
+    cram_big_case(ctx);
 }
 
 pub fn run(ctx: &mut Ctx) {
@@ -2479,6 +2571,7 @@ pub fn replay(ctx: &mut Ctx, suite: &str, sub: u64) {
         "vcf" => vcf_case(ctx, sub),
         "bcf" => bcf_case(ctx, sub),
         "cram" => cram_case(ctx, sub),
+        "cram-big" => cram_big_case(ctx),
         _ => {}
     }
 }
